@@ -20,6 +20,8 @@ func init() {
 }
 
 func runC12(r *engine.Run) {
+	r.Rule("PURE-export", "collecting a path export stores into no child slot or value link of an existing node of the trie: what is not sent is replaced by a hash reference in the export only (a subtree collapsed in place is gone while changes are uncommitted or there is no storage, and no block below it can be proven)")
+	r.Rule("RACE-loopvar", "a goroutine literal started inside a loop of core/util/wmpt captures no variable that the loop itself rewrites (the module's language version gives one loop variable per loop): the parallel marking of requested keys would skip keys or index past the end")
 	r.Rule("DOM-rejectshape", "DeserializeNode and its helpers refuse a record only for its shape (a len(...) comparison, a nil part, a failed kind test), never on a condition over decoded values: the trie keeps weights modulo 2^64 on every side, so a value check in the decoder rejects records and exports the library produced itself")
 	r.Rule("PRESENCE-byweight", "no comparison in core/util/wmpt takes a weight of 0 for absence (a weight compared with the constant 0): entries of weight 0 are entries whose hashes their ancestors commit to - a checkpoint copy that skips them, or a rollback that takes a zero-weight root for the empty trie, no longer stands for the checkpoint state")
 	r.Rule("FRESH-keybuf", "see C10: a node's key - and a leaf's value bytes, which are the slice the caller handed to Put - is never the base of an append: rewriting the bytes in place changes every other holder of the slice behind its cached hash, which the separately decoded partial trie does not share")
@@ -71,6 +73,8 @@ func runC12(r *engine.Run) {
 	freshResolved(r, "FRESH-resolved")
 	presenceByWeight(r, "PRESENCE-byweight")
 	decoderRejections(r, "DOM-rejectshape")
+	pureExport(r, "PURE-export")
+	sharedLoopVar(r, "RACE-loopvar", pkgWMPT, 1)
 }
 
 func exhWSubset(r *engine.Run, rule string, name string) {
@@ -375,6 +379,7 @@ func isHashCallOnValueOf(v ssa.Value, sn ssa.Value) bool {
 // ---- C13 ---------------------------------------------------------------------
 
 func runC13(r *engine.Run) {
+	r.Rule("WHO-checkpoint", "the checkpoint (oldRoot) is written by SaveRoot alone: a rollback that resets it makes a second rollback to the same checkpoint install the empty trie")
 	r.Rule("DOM-emptied", "where Update/Delete install the empty node as the root after a removal, the installed root reports Dirty(): otherwise the commit of a batch that removes every key is no commit (clean-root shortcut), the created list of the previous commit survives it, and RollbackTrie to a copy taken before the removal deletes the nodes of the state it goes back to")
 	r.Rule("PRESENCE-byweight", "no comparison in core/util/wmpt takes a weight of 0 for absence (a weight compared with the constant 0): entries of weight 0 are entries whose hashes their ancestors commit to - a checkpoint copy that skips them, or a rollback that takes a zero-weight root for the empty trie, no longer stands for the checkpoint state")
 	r.Rule("AGREE-rollback", "Rollback and RollbackTrie reset the same bookkeeping (created, tempDeleted, deleted) and both delete exactly the hashes in `created` through one batch; RollbackTrie assigns the root from its node argument; the created-hash handler of a commit appends every received hash to the created list")
@@ -414,6 +419,7 @@ func runC13(r *engine.Run) {
 	kvAdapter(r, "AGREE-kvops")
 	presenceByWeight(r, "PRESENCE-byweight")
 	domEmptied(r, "DOM-emptied")
+	whoCheckpoint(r, "WHO-checkpoint")
 }
 
 func bookkeepingResets(f *ssa.Function) (map[string]bool, bool, bool) {
